@@ -872,6 +872,16 @@ struct World
           nothrow(n, [&] { mapped.reset(); });
         }
       }
+      // const pre_order traversal over the subtree (must not run into the later siblings of its root)
+      {
+        std::vector<long> want, got;
+        mpre(ma, want);
+        for (Tree const &x : fcppt::container::tree::make_pre_order(ca))
+          got.push_back(x.value().id());
+        SIM_CHECK(want == got, "pre_order", "const traversal of the subtree of " + std::to_string(ma.id));
+        if (ma.parent != nullptr && ma.parent->ch.back().get() != &ma)
+          ctx.probe("subtree_traversal_with_later_siblings");
+      }
       // mutable pre_order traversal over the subtree
       {
         std::vector<long> want, got;
